@@ -101,6 +101,15 @@ class NdE:
         self.data = list(data)  # flat, row-major
 
     def copy(self):
+        """the same array in a forked state (ids are kept, so the view links stay valid)"""
+        c = self.detached()
+        for k in ("viewof", "views"):  # numpy views: (root Ref, positions in the root) / ((view Ref, positions), ...)
+            if k in self.__dict__:
+                setattr(c, k, self.__dict__[k])
+        return c
+
+    def detached(self):
+        """an independent array with the same contents (np.copy, deepcopy, pickle): owns its memory, no view links"""
         c = NdE(self.shape, self.data)
         for k in ("dtype", "shared"):  # optional marks set by the numpy model (forced object dtype, view of a buffer)
             if k in self.__dict__:
